@@ -131,39 +131,84 @@ theorem policyBad_zero_get {n : Nat} {p : Policy} (h : policyBad n p = 0) {name 
 
 /-! ### `invalidCriteriaCount` -/
 
-theorem invalidCriteriaCount_eq_zero {t : Table} {s : Store} (h : invalidCriteriaCount t s = 0) :
+theorem afileBad_eq_zero_iff (n : Nat) (f : AFile) : afileBad n f = 0 ↔ f.RefsValid n := by
+  unfold afileBad AFile.RefsValid
+  have h1 := nested_eq_zero_iff n f.audits (fun x : Audit => x.criteria)
+  have h2 := nested_eq_zero_iff n f.wildcards (fun x : Wildcard => x.criteria)
+  rw [← h1, ← h2]
+  omega
+
+theorem afileBad_ge (n : Nat) (f : AFile) :
+    (f.audits.map (fun e => (e.2.map (fun a => badRefs n a.criteria)).sum)).sum ≤ afileBad n f ∧
+    (f.wildcards.map (fun e => (e.2.map (fun a => badRefs n a.criteria)).sum)).sum ≤ afileBad n f := by
+  unfold afileBad
+  omega
+
+theorem invalidCriteriaCount_eq_zero {t : Table} {s : Store} {locked : Bool} {mt : List (List Nat)}
+    (h : invalidCriteriaCount t s locked mt = 0) :
     (∀ e ∈ s.exemptions, ∀ x ∈ e.2, ∀ c ∈ x.criteria, c < t.n) ∧
     policyBad t.n s.policy = 0 ∧
     (∀ c ∈ t, ∀ i ∈ c.implies, i < t.n) ∧
     (∀ e ∈ s.locals.audits, ∀ a ∈ e.2, ∀ c ∈ a.criteria, c < t.n) ∧
-    (∀ e ∈ s.locals.wildcards, ∀ a ∈ e.2, ∀ c ∈ a.criteria, c < t.n) := by
+    (∀ e ∈ s.locals.wildcards, ∀ a ∈ e.2, ∀ c ∈ a.criteria, c < t.n) ∧
+    (∀ e ∈ s.trusted, ∀ x ∈ e.2, ∀ c ∈ x.criteria, c < t.n) ∧
+    (∀ l ∈ mt, ∀ c ∈ l, c < t.n) ∧
+    (locked = true → ∀ f ∈ s.imports, f.RefsValid t.n) := by
   unfold invalidCriteriaCount at h
   simp only at h
   have h1 := nested_eq_zero_iff t.n s.exemptions (fun x : Exemption => x.criteria)
   have h4 := nested_eq_zero_iff t.n s.locals.audits (fun x : Audit => x.criteria)
   have h5 := nested_eq_zero_iff t.n s.locals.wildcards (fun x : Wildcard => x.criteria)
+  have h6 := nested_eq_zero_iff t.n s.trusted (fun x : Trusted => x.criteria)
   have h3 := map_sum_eq_zero_iff t (fun c => badRefs t.n c.implies)
-  refine ⟨h1.1 (by omega), by omega, ?_, h4.1 (by omega), h5.1 (by omega)⟩
-  intro c hc
-  exact (badRefs_eq_zero_iff _ _).1 (h3.1 (by omega) c hc)
+  have h7 := map_sum_eq_zero_iff mt (badRefs t.n)
+  refine ⟨h1.1 (by omega), by omega, ?_, h4.1 (by omega), h5.1 (by omega), h6.1 (by omega), ?_, ?_⟩
+  · intro c hc
+    exact (badRefs_eq_zero_iff _ _).1 (h3.1 (by omega) c hc)
+  · intro l hl
+    exact (badRefs_eq_zero_iff _ _).1 (h7.1 (by omega) l hl)
+  · intro hl f hf
+    subst hl
+    simp only [if_true] at h
+    have h8 := map_sum_eq_zero_iff s.imports (afileBad t.n)
+    exact (afileBad_eq_zero_iff _ _).1 (h8.1 (by omega) f hf)
+
+/-- the count of an unlocked load without map targets is below every other count -/
+theorem invalidCriteriaCount_base_le (t : Table) (s : Store) (locked : Bool) (mt : List (List Nat)) :
+    invalidCriteriaCount t s false [] ≤ invalidCriteriaCount t s locked mt := by
+  unfold invalidCriteriaCount
+  simp only [List.map_nil, List.sum_nil, Bool.false_eq_true, if_false]
+  omega
 
 /-! ### `validate` -/
 
 theorem validate_nil_iff {t : Table} {s : Store} {maxEnd : Nat} {locked : Bool}
-    {ci : List (Nat × List Nat)} {ln : List Nat} :
-    validate t s maxEnd locked ci ln = [] ↔
-      invalidCriteriaCount t s = 0 ∧ lateWildcards maxEnd s = 0 ∧
+    {ci : List (Nat × List Nat)} {ln : List Nat} {mt : List (List Nat)} :
+    validate t s maxEnd locked ci ln mt = [] ↔
+      checkTable t = true ∧
+      invalidCriteriaCount t s locked mt = 0 ∧ lateWildcards maxEnd s = 0 ∧
       (locked && importsLockOutdated ci ln s.imports) = false := by
   unfold validate
   simp only [List.append_eq_nil_iff, List.replicate_eq_nil_iff, and_assoc]
-  cases (locked && importsLockOutdated ci ln s.imports) <;> simp
+  cases (locked && importsLockOutdated ci ln s.imports) <;> cases checkTable t <;> simp
 
 theorem validate_ne_nil_of_count {t : Table} {s : Store} {maxEnd : Nat} {locked : Bool}
-    {ci : List (Nat × List Nat)} {ln : List Nat} (h : 0 < invalidCriteriaCount t s) :
-    validate t s maxEnd locked ci ln ≠ [] := by
+    {ci : List (Nat × List Nat)} {ln : List Nat} {mt : List (List Nat)}
+    (h : 0 < invalidCriteriaCount t s locked mt) :
+    validate t s maxEnd locked ci ln mt ≠ [] := by
   intro hv
-  have := (validate_nil_iff.1 hv).1
+  have := (validate_nil_iff.1 hv).2.1
   omega
+
+theorem invalidCriteria_mem_of_count {t : Table} {s : Store} {maxEnd : Nat} {locked : Bool}
+    {ci : List (Nat × List Nat)} {ln : List Nat} {mt : List (List Nat)}
+    (h : 0 < invalidCriteriaCount t s locked mt) :
+    ValidateError.invalidCriteria ∈ validate t s maxEnd locked ci ln mt := by
+  unfold validate
+  apply List.mem_append_left
+  apply List.mem_append_left
+  apply List.mem_append_right
+  exact List.mem_replicate.2 ⟨by omega, rfl⟩
 
 theorem lateWildcards_eq_zero_iff (maxEnd : Nat) (s : Store) :
     lateWildcards maxEnd s = 0 ↔ ∀ e ∈ s.locals.wildcards, ∀ w ∈ e.2, w.stop ≤ maxEnd := by
@@ -182,5 +227,33 @@ theorem lateWildcards_eq_zero_iff (maxEnd : Nat) (s : Store) :
     have := h e he w hw
     simp only [decide_eq_true_eq]
     omega
+
+/-- each part of the count is below the count -/
+theorem invalidCriteriaCount_ge (t : Table) (s : Store) (locked : Bool) (mt : List (List Nat)) :
+    (s.exemptions.map (fun e => (e.2.map (fun x => badRefs t.n x.criteria)).sum)).sum
+      ≤ invalidCriteriaCount t s locked mt ∧
+    (t.map (fun c => badRefs t.n c.implies)).sum ≤ invalidCriteriaCount t s locked mt ∧
+    (s.locals.audits.map (fun e => (e.2.map (fun a => badRefs t.n a.criteria)).sum)).sum
+      ≤ invalidCriteriaCount t s locked mt ∧
+    (s.trusted.map (fun e => (e.2.map (fun x => badRefs t.n x.criteria)).sum)).sum
+      ≤ invalidCriteriaCount t s locked mt ∧
+    (mt.map (badRefs t.n)).sum ≤ invalidCriteriaCount t s locked mt ∧
+    (locked = true → (s.imports.map (afileBad t.n)).sum ≤ invalidCriteriaCount t s locked mt) := by
+  unfold invalidCriteriaCount
+  refine ⟨by simp only; omega, by simp only; omega, by simp only; omega, by simp only; omega,
+    by simp only; omega, ?_⟩
+  intro hl
+  subst hl
+  simp only [if_true]
+  omega
+
+theorem lateWildcards_mem_of_pos {t : Table} {s : Store} {maxEnd : Nat} {locked : Bool}
+    {ci : List (Nat × List Nat)} {ln : List Nat} {mt : List (List Nat)}
+    (h : 0 < lateWildcards maxEnd s) :
+    ValidateError.badWildcardEndDate ∈ validate t s maxEnd locked ci ln mt := by
+  unfold validate
+  apply List.mem_append_left
+  apply List.mem_append_right
+  exact List.mem_replicate.2 ⟨by omega, rfl⟩
 
 end Vet
